@@ -8,7 +8,8 @@ use std::sync::{Arc, LazyLock, RwLock};
 use annotate_snippets::{AnnotationKind, Level, Renderer, Snippet};
 
 thread_local! {
-    static PLAIN_OUTPUT: std::cell::Cell<bool> = const { std::cell::Cell::new(false) };
+    /// Number of live `PlainOutputGuard`s on this thread.
+    static PLAIN_OUTPUT: std::cell::Cell<usize> = const { std::cell::Cell::new(0) };
 }
 
 /// RAII guard that forces plain (non-colored) `ErrorReport` output on the current thread.
@@ -26,14 +27,14 @@ impl Default for PlainOutputGuard {
 
 impl PlainOutputGuard {
     pub fn new() -> Self {
-        PLAIN_OUTPUT.with(|c| c.set(true));
+        PLAIN_OUTPUT.with(|c| c.set(c.get() + 1));
         PlainOutputGuard
     }
 }
 
 impl Drop for PlainOutputGuard {
     fn drop(&mut self) {
-        PLAIN_OUTPUT.with(|c| c.set(false));
+        PLAIN_OUTPUT.with(|c| c.set(c.get().saturating_sub(1)));
     }
 }
 
@@ -334,7 +335,7 @@ impl fmt::Display for ErrorReport {
         #[cfg(assert_struct_verif)]
         verif_hooks::record_entries(&self.errors, &labels);
 
-        let renderer = if PLAIN_OUTPUT.with(|c| c.get())
+        let renderer = if PLAIN_OUTPUT.with(|c| c.get() > 0)
             || std::env::var_os("NO_COLOR").is_some()
             || !std::io::IsTerminal::is_terminal(&std::io::stderr())
         {
